@@ -406,7 +406,9 @@ impl<'a> Ctx<'a> {
             let ext = decl_ext(&fin.cfg);
             let reqs: Vec<super::Sexp> = fin.roots.iter().map(|r| r.case.request()).collect();
             let answers = self.drv.batch(&reqs);
-            for (k, (r, ans)) in fin.roots.iter().zip(answers.iter()).enumerate() {
+            let cases: Vec<Case> = fin.roots.iter().map(|r| r.case.clone()).collect();
+            let loaders = self.loaders(&cases);
+            for (k, ((r, ans), pre)) in fin.roots.iter().zip(answers.iter()).zip(loaders.iter()).enumerate() {
                 let rel = format!("{}/{}.{ext}", r.dir, r.stem);
                 let Some(bytes) = after.get(&rel) else { continue }; // reported below (missing output)
                 let inter = Inter {
@@ -418,7 +420,7 @@ impl<'a> Ctx<'a> {
                     trace: trace.clone(),
                     history_decl: Some(String::from_utf8_lossy(bytes).to_string()),
                 };
-                self.judge(&r.case, ans, Some(&inter));
+                self.judge(&r.case, ans, Some(&inter), pre);
             }
         }
         // (2) the last run against the fresh run
